@@ -24,7 +24,7 @@ Theorem rt_open_pointer_walks_nf : forall (f : list N) (c : rp_rd) s1 rc1 s2 s3 
   let w7 := rp_repair_all_pointers w6a in
   rt_guard_b f (rp_log w7) = true -> rp_flt (rp_w_io w7) <> RpF_fuel.
 Proof.
-  intros f c s1 rc1 s2 s3 s5 r6 h6 Es Hlf Hhb pos E1 E2 E3. cbv zeta. intros E5 E6 Hgb.
+  intros f c s1 rc1 s2 s3 s5 r6 h6 Es Hlf Hhb pos E1 E2 E3. cbv zeta. intros E5 E6 Hgb. unfold pos in *. clear pos.
   pose proof (rpp_scan_nofuel f Hlf) as NF0. pose proof (rpp_scan_cases f) as SCc. pose proof (sc_scan f c Es) as Ssc.
   unfold rw_heads_below in Hhb. rewrite Es in NF0, SCc, Hhb.
   destruct SCc as (c3 & _ & (I1 & I2 & _) & E & Hf).
@@ -63,21 +63,8 @@ Lemma rt_ex_crash_image :
                         (wm_b_set_raw (rp_wm_base (rp_w_set_io (rp_bk_truncate (rp_w_set_io (rp_w_set_io (rp_w0 c) s1) s3)) s5) 0) r6)))
                {| wm_ck_offset := wm_ck_offset (rp_cur s5); wm_ck_hdr := h6 |})))) = true.
 Proof.
-  destruct (rp_scan rpp_crash_image) as [[c0 rc0] | c] eqn:Es; [vm_compute in Es; discriminate Es |].
-  exists c.
-  destruct (rp_raw_open (rp_io_ c) true) as [s1 rc1] eqn:E1. exists s1, rc1.
-  destruct (rp_chunk_seek s1 (rp_offset (rp_r (rp_io_ c)))) as [s2 rc2] eqn:E2. exists s2.
-  destruct (rp_rd_chunk s2) as [s3 rc3] eqn:E3. exists s3.
-  destruct (rp_chunk_seek (rp_w_io (rp_bk_truncate (rp_w_set_io (rp_w_set_io (rp_w0 c) s1) s3))) (rp_offset (rp_r (rp_io_ c)))) as [s5 rc5] eqn:E5.
-  exists s5.
-  destruct (wm_raw_wr (wm_b_raw (rp_wm_base (rp_w_set_io (rp_bk_truncate (rp_w_set_io (rp_w_set_io (rp_w0 c) s1) s3)) s5) 0))
-              (wm_ck_hdr (rp_cur s5)) (rp_payload s5)) as [r6 h6] eqn:E6.
-  exists r6, h6.
-  vm_compute in Es. inversion Es; subst c. clear Es.
-  vm_compute in E1. inversion E1; subst s1 rc1. clear E1.
-  vm_compute in E2. inversion E2; subst s2 rc2. clear E2.
-  vm_compute in E3. inversion E3; subst s3 rc3. clear E3.
-  vm_compute in E5. inversion E5; subst s5 rc5. clear E5.
-  vm_compute in E6. inversion E6; subst r6 h6. clear E6.
-  repeat split; vm_compute; reflexivity.
+  do 8 eexists.
+  split; [vm_compute; reflexivity |]. split; [vm_compute; reflexivity |]. split; [vm_compute; reflexivity |].
+  split; [vm_compute; reflexivity |]. split; [vm_compute; reflexivity |]. split; [vm_compute; reflexivity |].
+  split; [vm_compute; reflexivity |]. split; [vm_compute; reflexivity |]. vm_compute; reflexivity.
 Qed.
